@@ -523,6 +523,29 @@ def R6_account_wiring(run):
             run.check("R6", "caller@%s#%d" % (fn.path, n), sides == ["lower", "upper", "lower", "upper"], "%s passes %s to %s, expected (lower account, upper account, lower update, upper update)" %
                       (fn.path, sides, p.rsplit("::", 1)[-1]), loc=fn.loc(t["l"]), detail="(lower, upper, lower, upper)")
     run.floor("R6", "callers", n, 6)
+    # order: an increase can only initialise ticks, so the arrays are grown (and funded) before the ticks are written into them;
+    # a decrease can only de-initialise, so the ticks are written first and the arrays shrunk afterwards. The other order shifts
+    # tick bytes past the end of the account / cuts bytes that are still in use.
+    m = 0
+    for fn in facts.fn_list:
+        if fn.kind == "const":
+            continue
+        ua = [bi for bi, t in fn.calls() if (callee_path(t) or "").endswith(("::update_tick_array_accounts", "::pino_update_tick_array_accounts")) and not fn.blocks[bi]["c"]]
+        sy = [bi for bi, t in fn.calls() if (callee_path(t) or "").endswith(("::sync_modify_liquidity_values", "::pino_sync_modify_liquidity_values")) and not fn.blocks[bi]["c"]]
+        if not ua or not sy:
+            continue
+        direction = "increase" if "increase" in fn.path else "decrease" if "decrease" in fn.path else None
+        if direction is None:
+            run.bad("R6", "order@" + fn.path, "%s resizes tick arrays and writes ticks but is neither an increase nor a decrease path" % fn.path, loc=fn.loc())
+            continue
+        m += 1
+        if direction == "increase":
+            ok = all(cfg.dominates(fn, a_, s_) for a_ in ua for s_ in sy)
+        else:
+            ok = all(cfg.dominates(fn, s_, a_) for a_ in ua for s_ in sy)
+        run.check("R6", "order@" + fn.path, ok, "%s: %s" % (fn.path, "ticks are written before the arrays are grown" if direction == "increase" else "the arrays are shrunk before the ticks are written"),
+                  loc=fn.loc(), detail="grow, then write" if direction == "increase" else "write, then shrink")
+    run.floor("R6", "resize / write orders", m, 11)
 
 
 def R7_cross_checks(run):
